@@ -130,8 +130,8 @@ fn tfunc(candle: &Candle, last_candle: &Candle) -> (ValueType, ValueType) {
 	let tp2 = last_candle.tp();
 
 	(
-		(tp1 > tp2) as i8 as ValueType * candle.volume(),
-		(tp1 < tp2) as i8 as ValueType * candle.volume(),
+		(tp1 > tp2) as i8 as ValueType * candle.volumed_price(),
+		(tp1 < tp2) as i8 as ValueType * candle.volumed_price(),
 	)
 }
 
